@@ -76,6 +76,13 @@ def run_property(prop: str, tier: str = 'quick', replay: Optional[str] = None) -
             pass
         extra['controls'] = {'applied': sum(1 for c in control_report if c['status'] == 'ok'),
                              'skipped_anchor_text_changed': [c['name'] for c in control_report if c['status'] == 'skipped']}
+        corp = [c for c in control_report if c['rule'].startswith('<corpus')]
+        if corp:
+            extra['corpus'] = {
+                'seeded_changes_still_reported': sum(1 for c in corp if c['expect'] == 'fire' and c['status'] == 'ok'),
+                'behaviour_preserving_edits_silent': sum(1 for c in corp if c['expect'] == 'silent' and c['status'] == 'ok'),
+                'skipped_patch_does_not_fit_or_undecided': [c['name'] for c in corp if c['status'] == 'skipped'],
+            }
         if replay:
             want = json.loads(open(replay).read())
             hit = [f for f in fs if f.key == want.get('key')]
